@@ -151,6 +151,10 @@ class G:
             name = self.fresh()
             mut = r.random() < 0.5
             e = self.expr(ty, env)
+            if ty.startswith("array<") and mut and not e.startswith("["):
+                # `let mut b = a` makes b an alias of a on both engines (in-place array_push is then visible through a), while the
+                # reference has value semantics: known finding F-C02-5, exercised by its own witness, kept out of the general stream
+                mut = False
             out.append("%slet %s%s: %s = %s" % (indent, "mut " if mut else "", name, ty, e))
             env[name] = (ty, mut)
             if ty.startswith("array<") and e.startswith("["):
